@@ -65,17 +65,19 @@ pub fn setup_1(w: &mut World, _: SystemCommand) { w.resource_mut::<Log>().push(1
 pub fn setup_2(w: &mut World, _: SystemCommand) { w.resource_mut::<Log>().push(12); }
 pub fn setup_3(w: &mut World, _: SystemCommand) { w.resource_mut::<Log>().push(13); }
 pub fn setup_4(w: &mut World, _: SystemCommand) { w.resource_mut::<Log>().push(14); }
+pub fn setup_5(w: &mut World, _: SystemCommand) { w.resource_mut::<Log>().push(15); }
 pub fn cleanup_1(w: &mut World) { w.resource_mut::<Log>().push(21); }
 pub fn cleanup_2(w: &mut World) { w.resource_mut::<Log>().push(22); }
 pub fn cleanup_3(w: &mut World) { w.resource_mut::<Log>().push(23); }
 pub fn cleanup_4(w: &mut World) { w.resource_mut::<Log>().push(24); }
+pub fn cleanup_5(w: &mut World) { w.resource_mut::<Log>().push(25); }
 pub fn setup_k(k: u8, s: SystemCommand) -> SystemCommandSetup
 {
-    SystemCommandSetup::new(s, match k { 1 => setup_1, 2 => setup_2, 3 => setup_3, _ => setup_4 })
+    SystemCommandSetup::new(s, match k { 1 => setup_1, 2 => setup_2, 3 => setup_3, 4 => setup_4, _ => setup_5 })
 }
 pub fn cleanup_k(k: u8) -> SystemCommandCleanup
 {
-    SystemCommandCleanup::new(match k { 1 => cleanup_1, 2 => cleanup_2, 3 => cleanup_3, _ => cleanup_4 })
+    SystemCommandCleanup::new(match k { 1 => cleanup_1, 2 => cleanup_2, 3 => cleanup_3, 4 => cleanup_4, _ => cleanup_5 })
 }
 pub fn setup_parts(s: &SystemCommandSetup) -> (SystemCommand, fn(&mut World, SystemCommand)) { (s.reactor, s.setup) }
 pub fn set_counter(world: &mut World, v: usize) { **world.resource_mut::<SyscommandCounter>() = v; }
@@ -226,7 +228,7 @@ pub fn setup_id(s: &SystemCommandSetup) -> u8
 {
     let f = s.setup;
     if f == setup_1 as fn(&mut World, SystemCommand) { 1 } else if f == setup_2 as fn(&mut World, SystemCommand) { 2 }
-    else if f == setup_3 as fn(&mut World, SystemCommand) { 3 } else if f == setup_4 as fn(&mut World, SystemCommand) { 4 } else { 0 }
+    else if f == setup_3 as fn(&mut World, SystemCommand) { 3 } else if f == setup_4 as fn(&mut World, SystemCommand) { 4 } else if f == setup_5 as fn(&mut World, SystemCommand) { 5 } else { 0 }
 }
 pub fn cleanup_id(c: &SystemCommandCleanup) -> u8
 {
@@ -234,7 +236,7 @@ pub fn cleanup_id(c: &SystemCommandCleanup) -> u8
     {
         None => 0,
         Some(f) => if f == cleanup_1 as fn(&mut World) { 1 } else if f == cleanup_2 as fn(&mut World) { 2 }
-            else if f == cleanup_3 as fn(&mut World) { 3 } else if f == cleanup_4 as fn(&mut World) { 4 } else { 9 },
+            else if f == cleanup_3 as fn(&mut World) { 3 } else if f == cleanup_4 as fn(&mut World) { 4 } else if f == cleanup_5 as fn(&mut World) { 5 } else { 9 },
     }
 }
 pub fn record_nested(world: &mut World, command: SystemCommand, setup: SystemCommandSetup, cleanup: SystemCommandCleanup)
@@ -350,6 +352,7 @@ runner_top_harness!(runner_step_replay_2_root, 4, { step_replay::<2>(true) });
 runner_top_harness!(runner_step_replay_2_nested, 4, { step_replay::<2>(false) });
 runner_top_harness!(runner_step_replay_3_root, 5, { step_replay::<3>(true) });
 runner_top_harness!(runner_step_replay_3_nested, 5, { step_replay::<3>(false) });
+runner_top_harness!(runner_step_replay_4_root, 6, { step_replay::<4>(true) });
 
 /// vacuity twin of the step family: the plain-run path is reachable (the final assert(false) must come back violated)
 runner_harness!(runner_step_witness, 3, {
@@ -519,8 +522,57 @@ runner_marks_harness!(runner_polls_after_the_run, 3, {
     let gc_at = last_index(&world, 31);
     let poll_at = last_index(&world, 32);
     assert!(cleanup_at.is_some() && world.resource::<Log>().count(1) == (if missing { 0 } else { 1 }));
+    if !missing
+    {
+        let setup_at = last_index(&world, 11).unwrap();
+        assert!(last_index(&world, 1) == Some(setup_at + 1), "C04/C03: nothing else happens - no collection, no poll, hence no other system's run - between the moment the event data is exposed (setup) and the reacting system's run");
+    }
     assert!(gc_at.is_some() && gc_at > cleanup_at, "C07/C10: entities released by the run (or by an aborted command's cleanup) are collected before the runner returns");
     assert!(poll_at.is_some() && poll_at > gc_at, "C08: removals and despawns caused by the run - including those of that collection - are polled before the runner returns, i.e. within the tree");
     kani::cover!(missing && idx == 0, "aborted at the root"); kani::cover!(!missing && idx == 3, "ran inside a tree");
     std::mem::forget(world);
 });
+
+/// S8 (C11/C02): a system that despawns its own entity while it runs (what a one-off reactor does), with one command
+/// postponed for itself and one for another, lost system: the runner still finishes the tree - at the root the leftovers
+/// are discarded through setup+cleanup, nothing stays postponed, the counter is reset; nothing runs for the dead system.
+fn step_self_despawn(root: bool)
+{
+    let mut world = mk_world();
+    world.m_apply_table::<(SystemCommand,)>();
+    world.m_drop_table::<bevy::model::cell::LeakAll>();
+    let b = logger(&mut world, 2);
+    let b_taken = world.get_mut::<SystemCommandStorage>(*b).unwrap().take().unwrap();
+    let a_id = Entity::m_new(b.index() + 1, 1);
+    let a = spawn_system_command_from(&mut world, SystemCommandCallback::with(move |w: &mut World, cleanup: SystemCommandCleanup| {
+        w.resource_mut::<Log>().push(1); cleanup.run(w);
+        w.despawn(a_id);
+    }));
+    assert!(*a == a_id);
+    let idx: usize = if root { 0 } else { 2 };
+    set_counter(&mut world, idx);
+    buffer_push(&mut world, a, 2);
+    buffer_push(&mut world, b, 3);
+
+    top_runner(&mut world, a, setup_k(1, a), cleanup_k(1));
+
+    assert!(!world.m_alive(a_id), "the system despawned itself");
+    assert!(world.resource::<Log>().count(1) == 1, "C02: it ran exactly once");
+    if root
+    {
+        assert!(counter(&world) == 0 && buffered_len(&world) == 0, "C11: a tree whose root command despawned itself still ends with the counter reset and nothing left postponed");
+        let log = world.resource::<Log>();
+        assert!(log.count(13) == 1 && log.count(23) == 1, "C11/C05: the other system's leftover command is discarded through its own setup and cleanup");
+        assert!(nested_n() + log.count(12) == 1 && nested_n() + log.count(22) == 1, "C05/C18: the dead system's postponed command is handed back to the runner (which aborts it) or discarded - either way its data is released exactly once");
+    }
+    else
+    {
+        assert!(counter(&world) == idx + 1, "inside a tree the position only advances");
+        assert!(nested_n() + buffered_len(&world) == 2, "C02: postponed commands are replayed or stay postponed - none vanishes");
+    }
+    assert!(!lost_system_path_taken());
+    kani::cover!(true, "end of harness reached");
+    std::mem::forget(b_taken); std::mem::forget(world);
+}
+runner_top_harness!(runner_step_self_despawn_root, 4, { step_self_despawn(true) });
+runner_top_harness!(runner_step_self_despawn_nested, 4, { step_self_despawn(false) });
